@@ -303,20 +303,18 @@ class HttpParser:
             )
 
     def _parse_headers(self, data):
-        if data == b'\r\n':
-            self.__on_headers_complete = True
-            self._buf = []
-            return 0
-        idx = data.find(b'\r\n\r\n')
-        if idx < 0:  # we don't have all headers
-            if self._status_code == 204 and data == b'\r\n':
-                self._buf = []
-                self.__on_headers_complete = True
-                return 0
-            return False
+        if data[:2] == b'\r\n':
+            # no header fields at all: the blank line ends the (empty) header
+            # block, whatever follows it in the same read is body
+            idx = -2
+            lines = []
+        else:
+            idx = data.find(b'\r\n\r\n')
+            if idx < 0:  # we don't have all headers
+                return False
 
-        # Split lines on \r\n keeping the \r\n on each line
-        lines = [str(line, 'unicode_escape') + '\r\n' for line in data[:idx].split(b'\r\n')]
+            # Split lines on \r\n keeping the \r\n on each line
+            lines = [str(line, 'unicode_escape') + '\r\n' for line in data[:idx].split(b'\r\n')]
 
         # Parse headers into key/value pairs paying attention
         # to continuation lines.
